@@ -1171,7 +1171,28 @@ def case_chain(rng, ctx):
 
 
 # ================================================================= strings
+def case_many_strings(rng, ctx):
+    """A string column with more distinct values than 15 / 16 bits count (atom ids, per-atom labels of a large entry)."""
+    u = int(rng.choice([32767, 32769, 40003, 65537]))
+    base = np.array(["s%d" % i for i in range(u)])
+    x = np.concatenate([base, base[rng.integers(0, u, size=500)]])
+    x = x[rng.permutation(len(x))]
+    explicit = bool(rng.random() < 0.4)
+    strings = [str(v) for v in base[rng.permutation(u)]] if explicit else None
+    spec = ("StringArray", {"strings": strings, "data_encoding": None, "offset_encoding": None})
+    ctx.log("StringArray", {"mode": "many_distinct", "distinct": u, "explicit": explicit}, [len(x)])
+    ctx.op("StringArray.many_distinct")
+    ctx.mark_nontrivial()
+    ctx.state(["StringArray", "many_distinct", u > 65535, explicit])
+    what = "StringArray(%s strings given) on %d strings with %d distinct values" % ("explicit" if explicit else "no", len(x), u)
+    e = mk(spec)
+    st, val = roundtrip(ctx, [e], x)
+    settle(ctx, st, val, True, what, lambda oracle: judge_strs(ctx, oracle or "string_roundtrip_exact", val[1], x, what))
+
+
 def case_stringarray(rng, ctx):
+    if (ctx.index or 0) % 250 == 249:
+        return case_many_strings(rng, ctx)
     empty_ok = ctx.allowed(T_EMPTY)
     x = gen_strings(rng, ctx)
     n = len(x)
